@@ -112,7 +112,7 @@ def setup(rec, tier):
 
 def make_shape(cs, rng, which):
     if which in ("Polygon", "ConvexPolygon", "ConvexSpheropolygon"):
-        c = gen.polygon_case(rng, kind=("convex" if which != "Polygon" else None))
+        c = gen.polygon_case(rng, kind=("convex" if which != "Polygon" else None), unit_frac=0.12)
         V = c["V"]
         if which != "Polygon" and not c["convex"]:
             xy = gen.convex_polygon_2d(rng)
@@ -130,11 +130,18 @@ def make_shape(cs, rng, which):
         if len(P) > 30:
             P = P[:30]
             P = P[gen.strict_hull_vertices(P)]
+        if "unit" not in c and not c.get("exact") and rng.random() < 0.1:
+            # a few more solids in very small units, off the origin by about their own size (nanoparticles in metres):
+            # "is it centred?" shortcuts with an absolute tolerance take these for centred
+            P = P * float(10 ** rng.uniform(-10, -8))
+            c = dict(c, unit="tiny")
         if which == "ConvexPolyhedron":
             return cs.ConvexPolyhedron(P.copy()), c
         return cs.ConvexSpheropolyhedron(P.copy(), float(rng.choice([0.0, 0.25, 3.0]))), c
     if which == "Polyhedron":
         c = gen.mesh_case(rng)
+        if rng.random() < 0.1:
+            c = dict(c, V=c["V"] * float(10 ** rng.uniform(-10, -8)), unit="tiny")
         return cs.Polyhedron(c["V"].copy(), [list(f) for f in c["faces"]], faces_are_convex=True), c
     k = {"Circle": 1, "Ellipse": 2, "Sphere": 1, "Ellipsoid": 3}[which]
     ax, _ = gen.axes_case(rng, k)
